@@ -612,7 +612,11 @@ func (g *G) illegalOp() bool {
 		if g.rng.Intn(2) == 0 {
 			vals = strconv.Itoa(1 + g.rng.Intn(50)) // NewBuilderWith instead of NewBuilder
 		}
-		switch g.rng.Intn(6) {
+		switch g.rng.Intn(9) {
+		case 6, 7: // batch exchange (plain and Q variant) adding the relation with the dead target
+			g.emit("BXCHG", strconv.Itoa(g.rng.Intn(2)), strconv.Itoa(rel), "-", strconv.Itoa(rel), d, "M", "-", strconv.Itoa(rel))
+		case 8: // Batch.SetRelationQ
+			g.emit("BSETREL", "1", strconv.Itoa(rel), d, "A", strconv.Itoa(rel))
 		case 0:
 			g.emit("BNEW", strconv.Itoa(rel), vals, strconv.Itoa(rel), d)
 		case 1:
@@ -716,7 +720,14 @@ func (g *G) illegalOp() bool {
 		if len(al) > 0 && g.rng.Intn(2) == 0 {
 			tg = sl(g.pick(al))
 		}
-		g.emit("BNEW", strIDs(ids), vals, strconv.Itoa(rel), tg)
+		switch g.rng.Intn(4) {
+		case 0: // the batch variants check the relation on another path (newEntities / newEntitiesWith)
+			g.emit("BBATCH", strIDs(ids), vals, strconv.Itoa(rel), strconv.Itoa(1+g.rng.Intn(3)), tg)
+		case 1:
+			g.emit("BBATCHQ", strIDs(ids), vals, strconv.Itoa(rel), strconv.Itoa(1+g.rng.Intn(3)), tg)
+		default:
+			g.emit("BNEW", strIDs(ids), vals, strconv.Itoa(rel), tg)
+		}
 		g.emit("STATS")
 	case 13: // exchange with relation but nothing to do
 		if len(al) == 0 || len(g.relIDs()) == 0 {
@@ -1338,7 +1349,14 @@ func (g *G) legalOp(kind string) bool {
 		if g.rng.Intn(2) == 0 {
 			// a Dispatch over 0-4 sub-listeners, some of them added after construction
 			k := g.rng.Intn(5)
-			args := []string{strconv.Itoa(g.rng.Intn(k + 1))}
+			first := g.rng.Intn(k + 1)
+			ktok := strconv.Itoa(first)
+			if late := g.rng.Intn(k - first + 1); late > 0 && g.rng.Intn(2) == 0 {
+				// "K+J": the last J sub-listeners are added AFTER World.SetListener (a Dispatch kept as
+				// a resource so that systems can add listeners later: its subscriptions grow while installed)
+				ktok += "+" + strconv.Itoa(late)
+			}
+			args := []string{ktok}
 			for i := 0; i < k; i++ {
 				a, b := one()
 				args = append(args, a, b)
